@@ -273,6 +273,7 @@ func opsFor(m *reng.Model, r *vk.Rand, quick bool) []*Expect {
 	out = append(out, base(VOp{Kind: "setrebuilding", Flag: true}))
 	out = append(out, base(VOp{Kind: "close"}))
 	out = append(out, base(VOp{Kind: "open"}))
+	out = append(out, base(VOp{Kind: "reload"}))
 	return out
 }
 
@@ -455,7 +456,7 @@ func (rn *runner) enumerate(pdir string, m *reng.Model, ex *Expect, errnos map[s
 // sameState: operations whose before and after states are indistinguishable by chain, size and data.
 func sameState(ex *Expect) bool {
 	switch ex.Op.Kind {
-	case "setcheckpoint", "setrebuilding", "cloneinfo", "close", "open", "markremoved":
+	case "setcheckpoint", "setrebuilding", "cloneinfo", "close", "open", "reload", "markremoved":
 		return true
 	}
 	return false
